@@ -5,6 +5,7 @@ pub fn dispatch(v: &Value) -> Value {
         "bdd_script" => bdd_script(v),
         "adf_sem" => adf_sem(v),
         "iter" => iter_cmd(v),
+        "ng" => ng_cmd(v),
         "bdd_query" => bdd_query(v),
         "counts_kernel" => {
             let mc: ModelCounts = (us(&v["cmodels"]), us(&v["models"])).into();
@@ -237,4 +238,68 @@ pub fn bdd_query(v: &Value) -> Value {
         "cubes": cubes,
         "nodes": dump_nodes(bdd),
     })
+}
+
+use adf_bdd::nogoods::{DuplicateElemination, NoGood, NoGoodStore};
+
+fn ng_from(v: usize, a: usize, val: usize) -> NoGood {
+    let terms: Vec<Term> = (0..v).map(|i| if (a >> i) & 1 == 1 { Term((val >> i) & 1) } else { Term(10 + i) }).collect();
+    NoGood::from_term_vec(&terms)
+}
+
+fn ng_read(v: usize, ng: &NoGood) -> Value {
+    let und: Vec<Term> = (0..v).map(|i| Term(10 + i)).collect();
+    let mut upd = false;
+    let r = ng.update_term_vec(&und, &mut upd);
+    let mut a = 0usize;
+    let mut val = 0usize;
+    for (i, t) in r.iter().enumerate() {
+        if t.is_truth_value() {
+            a |= 1 << i;
+            if t.is_true() {
+                val |= 1 << i;
+            }
+        }
+    }
+    json!([a, val])
+}
+
+pub fn ng_cmd(v: &Value) -> Value {
+    let nv = us(&v["V"]);
+    let mut st = NoGoodStore::new(nv as u32);
+    let modes = v["modes"].as_array().unwrap();
+    for (k, ng) in v["nogoods"].as_array().unwrap().iter().enumerate() {
+        let m = modes[k].as_str().unwrap();
+        if k == 0 || modes[k - 1] != modes[k] {
+            st.set_dup_elem(match m {
+                "None" => DuplicateElemination::None,
+                "Equiv" => DuplicateElemination::Equiv,
+                _ => DuplicateElemination::Subsume,
+            });
+        }
+        st.add_ng(ng_from(nv, us(&ng[0]), us(&ng[1])));
+    }
+    let (ia, iv) = (us(&v["interp"][0]), us(&v["interp"][1]));
+    let interp = ng_from(nv, ia, iv);
+    let concl = st.conclusions(&interp).map(|r| ng_read(nv, &r));
+    // conclusion_closure is crate-private: its public counterpart is the fixpoint of conclusions()
+    let mut cur = Some(interp.clone());
+    let mut steps = 0;
+    let closure = loop {
+        let c = match &cur {
+            Some(c) => c.clone(),
+            None => break None,
+        };
+        match st.conclusions(&c) {
+            None => break None,
+            Some(nx) => {
+                if nx == c || steps > 64 {
+                    break Some(ng_read(nv, &nx));
+                }
+                cur = Some(nx);
+            }
+        }
+        steps += 1;
+    };
+    json!({"conclusions": concl, "closure": closure})
 }
